@@ -449,6 +449,8 @@ def run(rep):
         rep.add_bounded(f"{P}/bounded.{res['name']}", res['ok'], res['detail'], replay={'kind': 'c13.point'})
     for res in R.helper_cases():
         rep.add_bounded(f"{P}/bounded.{res['name']}", res['ok'], res['detail'], replay={'kind': 'c13.helper', 'name': res['name']})
+    for res in R.trace_component_cases(n=400 if rep.tier == 'thorough' else 120):
+        rep.add_bounded(f"{P}/bounded.{res['name']}", res['ok'], res['detail'], replay={'kind': 'c13.trace'})
     for res in R.guess_cases():
         rep.add_bounded(f"{P}/bounded.{res['name']}", res['ok'], res['detail'], replay={'kind': 'c13.guess', 'name': res['name']})
     for res in R.argument_form_cases():
